@@ -54,8 +54,11 @@ impl Serializer {
         ensures r is Ok, final(self).toks() == old(self).toks().push(match len { cbor_event::Len::Len(n) => Tok::Arr(n), cbor_event::Len::Indefinite => Tok::ArrIndef }) { unimplemented!() }
     #[verifier::external_body] pub fn write_unsigned_integer(&mut self, v: u64) -> (r: Result<(), CborError>)
         ensures r is Ok, final(self).toks() == old(self).toks().push(Tok::UInt(v)) { unimplemented!() }
+    /// cbor_event computes the nint argument as `(-v - 1) as u64`: a negative v denotes itself, a non-negative v wraps to v - 2^64 (0 is how -2^64 is
+    /// written), and i64::MIN overflows the negation (panic in debug builds): excluded by the precondition
     #[verifier::external_body] pub fn write_negative_integer(&mut self, v: i64) -> (r: Result<(), CborError>)
-        ensures r is Ok, final(self).toks() == old(self).toks().push(Tok::NInt(v as int)) { unimplemented!() }
+        requires v != i64::MIN
+        ensures r is Ok, final(self).toks() == old(self).toks().push(Tok::NInt(if v < 0 { v as int } else { v - 0x1_0000_0000_0000_0000 })) { unimplemented!() }
     #[verifier::external_body] pub fn write_tag(&mut self, t: u64) -> (r: Result<(), CborError>)
         ensures r is Ok, final(self).toks() == old(self).toks().push(Tok::Tag(t)) { unimplemented!() }
     #[verifier::external_body] pub fn write_bytes<B: BytesLike>(&mut self, b: B) -> (r: Result<(), CborError>)
